@@ -32,6 +32,52 @@ NONTRIVIAL = ['N1', 'N2', 'N3']
 CORE = TRIVIAL + NONTRIVIAL
 HAS_VARY = {'V1', 'V2', 'V3', 'M1', 'N2', 'E4', 'G2'}
 
+# ---- layout family (Mode A) -----------------------------------------------------------------------------------------
+SIZE_T = {1: 'u8', 2: 'u16', 4: 'u32', 12: 'Bs<12>', 16: 'Bs<16>'}
+
+
+def family():
+    """all lists of <= 3 payload parameters over {plain, fixed, varying} x object size x alignment; a varying parameter is
+    preceded by its count field (size_t or AlignAs<size_t,8>)"""
+    import itertools
+    params = []
+    for kind in 'PFV':
+        for sz in (1, 2, 4, 12, 16):
+            for al in (1, 2, 4, 8, 16, 32):
+                params.append((kind, sz, al))
+    out = []
+    for n in (1, 2, 3):
+        for combo in itertools.product(params, repeat=n):
+            for cnt in ('usize', f'{A}<usize,8>'):
+                if cnt != 'usize' and not any(k == 'V' for k, _, _ in combo): continue
+                out.append((combo, cnt))
+    return out
+
+
+def family_list(combo, cnt):
+    parts = []
+    for kind, sz, al in combo:
+        t = SIZE_T[sz]
+        if al != 1: t = f'{A}<{t},{al}>'
+        if kind == 'P': parts.append(t)
+        elif kind == 'F': parts.append(f'{F}<{t}>')
+        else: parts += [cnt, f'{V}<{t}>']
+    return ', '.join(parts)
+
+
+def family_name(combo, cnt):
+    return ''.join(f'{k}{s}a{a}' for k, s, a in combo) + ('c8' if cnt != 'usize' else '')
+
+
+def layout_ob(prop, name, lst, nelem=2, maxspan=65535, reserved=0, nvary=None, cfg=None):
+    if nvary is None: nvary = lst.count(V + '<')
+    if (nvary >= 2 or F + '<' in lst) and maxspan > 64: maxspan = 64   # see DESIGN 3.6: symbolic fixed sizes / two spans
+    d = [f'-DLIST={lst}', f'-DNELEM={nelem}', f'-DMAXSPAN={maxspan}', f'-DRESERVED={reserved}']
+    c = dict(slack='both', abstract_memcpy=True, budget_s=900)
+    if cfg: c.update(cfg)
+    return dict(prop=prop, name=f"layout/{name}/n{nelem}/s{maxspan}" + ('/reserved' if reserved else ''), harness='h_layout.cpp', defines=d, entry='h_entry', cfg=c, list=name)
+
+
 # ---- attribution of an engine violation to a property ---------------------------------------------------------------
 KIND_PROP = {
     'BOUNDS': 'C02', 'OVERLAP': 'C02', 'ALIGN': 'C03', 'ASSERT': 'C03', 'LEDGER': 'C07', 'FOREIGN-ALLOC': 'C07',
@@ -48,22 +94,33 @@ def attribute_seq(aid):
     if loc in (7, 8, 95): return 'C02'
     if loc == 9: return 'C18'
     if 90 <= loc <= 92: return 'C16'
+    if loc == 96: return 'C03'
+    if loc == 97: return 'C06'
+    if loc == 98: return 'C04'
     return 'C01'
 
 
 ATTR = {'h_seq.cpp': attribute_seq}
 
 
+OWNER = {'h_seq.cpp': 'C01', 'h_copy.cpp': 'C09', 'h_elem.cpp': 'C12', 'h_ref.cpp': 'C11', 'h_layout.cpp': 'C02', 'h_cmp.cpp': 'C13',
+         'h_emplace.cpp': 'C15', 'h_exc.cpp': 'C17', 'h_const.cpp': 'C19', 'h_empty.cpp': 'C18'}
+UB_KINDS = ('BOUNDS', 'OVERLAP', 'UNREACHABLE', 'TRAP', 'ASSUME')
+
+
 def attribute(ob, viol):
+    """set of properties a violation counts against. Undefined behaviour inside the operation a property specifies counts
+    against that property as well as against the memory-safety property C02."""
     k = viol['kind']
+    if k == 'COMPILE': return {ob.get('prop')}
     if k == 'PROP':
         f = ATTR.get(ob['harness'])
         p = f(viol['assert_id']) if f else ob.get('prop')
-        ov = ob.get('attr_override')
-        if ov and p in ov: p = ov[p]
-        return p
-    if k == 'LEDGER' and 'unequal allocator' in viol['msg']: return 'C08'
-    return KIND_PROP.get(k, ob.get('prop'))
+        return {p}
+    out = {KIND_PROP.get(k, ob.get('prop'))}
+    if k == 'LEDGER' and 'unequal allocator' in viol['msg']: out.add('C08')
+    if k in UB_KINDS: out.add(ob.get('owner') or OWNER.get(ob['harness'], ob.get('prop')))
+    return out
 
 
 # ---- obligations ----------------------------------------------------------------------------------------------------
@@ -83,15 +140,20 @@ QUICK_PAIRS = [('OP_ERASE', 'OP_PROBE'), ('OP_RESERVE', 'OP_PROBE'), ('OP_CLEAR'
                ('OP_POP', 'OP_PROBE'), ('OP_ERASE_RANGE', 'OP_PROBE')]
 
 
-def c01(tier, seed):
+def pool_seq(prop, lists, tier, ops_filter=None, aflags='AF_ALWAYS_EQUAL'):
     obs = []
-    for lid in CORE:
-        for op in SINGLE_OPS: obs.append(seq_ob('C01', lid, [op, 'OP_PROBE'] if op in ('OP_RESERVE',) else [op]))
-        for a, b in QUICK_PAIRS: obs.append(seq_ob('C01', lid, [a, b, 'OP_PROBE'] if b != 'OP_PROBE' else [a, b]))
+    for lid in lists:
+        for op in SINGLE_OPS:
+            if ops_filter and op not in ops_filter: continue
+            obs.append(seq_ob(prop, lid, [op, 'OP_PROBE'] if op in ('OP_RESERVE',) else [op], aflags=aflags))
+        for a, b in QUICK_PAIRS:
+            if ops_filter and a not in ops_filter: continue
+            obs.append(seq_ob(prop, lid, [a, b, 'OP_PROBE'] if b != 'OP_PROBE' else [a, b], aflags=aflags))
         if tier == 'thorough':
             for a in SINGLE_OPS:
                 for b in SINGLE_OPS:
-                    obs.append(seq_ob('C01', lid, [a, 'OP_PROBE', b, 'OP_PROBE'], k0=2))
+                    if ops_filter and a not in ops_filter and b not in ops_filter: continue
+                    obs.append(seq_ob(prop, lid, [a, 'OP_PROBE', b, 'OP_PROBE'], k0=2, aflags=aflags))
     return dedup(obs)
 
 
@@ -103,11 +165,244 @@ def dedup(obs):
     return out
 
 
-PLANS = {'C01': c01}
+# ---- copy / move / swap ---------------------------------------------------------------------------------------------
+COPY_OPS = ['OP_COPY_CTOR', 'OP_COPY_ASSIGN', 'OP_MOVE_CTOR', 'OP_MOVE_ASSIGN', 'OP_SWAP', 'OP_SELF']
+ALLOC_KINDS = {   # name -> (AFLAGS expression, eq_ids)
+    'ae': ('AF_ALWAYS_EQUAL', 0),
+    'st-ne': ('0', 0), 'st-eq': ('0', 1),
+    'prop-ne': ('AF_POCCA|AF_POCMA|AF_POCS', 0), 'prop-eq': ('AF_POCCA|AF_POCMA|AF_POCS', 1),
+}
+
+
+def copy_ob(prop, lid, op, akind='ae', ka=2, kb=1, aflags=None, eq=None, name=None):
+    fl, e = ALLOC_KINDS.get(akind, (aflags, eq))
+    if aflags is not None: fl = aflags
+    if eq is not None: e = eq
+    d = [f'-DLIST={LISTS[lid]}', f'-DOP={op}', f'-DKA={ka}', f'-DKB={kb}', f'-DAFLAGS=({fl})', f'-DEQ_IDS={e}']
+    if lid in TWO_SPAN: d.append('-DSMAX=1')
+    return dict(prop=prop, name=name or f"copy/{lid}/{akind}/{op[3:].lower()}/ka{ka}kb{kb}", harness='h_copy.cpp', defines=d, entry='h_entry',
+                cfg=dict(slack='min', budget_s=1200), list=lid)
+
+
+def pool_copy(prop, lists, tier, akinds=('ae',), ops=COPY_OPS):
+    obs = []
+    for lid in lists:
+        for ak in akinds:
+            for op in ops:
+                if op in ('OP_COPY_CTOR', 'OP_MOVE_CTOR', 'OP_SELF') and ak.endswith('-eq'): continue
+                obs.append(copy_ob(prop, lid, op, ak, ka=2, kb=(1 if tier == 'quick' else 2)))
+    return dedup(obs)
+
+
+def attribute_copy(aid):
+    if aid in (9100,) or 9001 <= aid <= 9009: return 'C06'
+    if aid == 9101: return 'C07'
+    if aid in (801, 802): return 'C08'
+    if 810 <= aid <= 813: return 'C05'
+    if aid == 890: return 'C16'
+    if aid == 897: return 'C06'
+    loc = aid % 100
+    if loc in (7, 8, 95): return 'C02'
+    if loc == 96: return 'C03'
+    if loc == 97: return 'C06'
+    if loc == 98: return 'C04'
+    return 'C09'
+
+
+def attribute_layout(aid):
+    if aid in (1, 4, 30, 31): return 'C03'
+    if aid in (10, 11, 12, 13, 14): return 'C05'
+    if 20 <= aid <= 27: return 'C04'
+    if aid == 3: return 'C02'
+    return 'C10'   # 2, 5: capacity()/size() after construction or reserve
+
+
+def attribute_ref(aid):
+    if aid == 9100 or 9001 <= aid <= 9009 or aid == 297: return 'C06'
+    if aid == 9101: return 'C07'
+    loc = aid % 100
+    if loc == 96: return 'C03'
+    if loc == 98: return 'C04'
+    return 'C11'
+
+
+def attribute_elem(aid):
+    if aid == 9100 or 9001 <= aid <= 9009 or aid == 297: return 'C06'
+    if aid == 9101: return 'C07'
+    if aid == 801: return 'C08'
+    loc = aid % 100
+    if loc == 96: return 'C03'
+    if loc == 98: return 'C04'
+    return 'C12'
+
+
+ATTR['h_ref.cpp'] = attribute_ref
+ATTR['h_elem.cpp'] = attribute_elem
+ATTR['h_copy.cpp'] = attribute_copy
+ATTR['h_layout.cpp'] = attribute_layout
+
+
+# ---- layout pool ----------------------------------------------------------------------------------------------------
+def sym_spans(combo):
+    return sum(1 for k, _, _ in combo if k in 'FV')
+
+
+def pool_layout(prop, tier, seed, reserved=False):
+    obs = []
+    for lid in TRIVIAL:
+        lst = LISTS[lid]
+        ns = lst.count(V + '<') + lst.count(F + '<')
+        for n in ((2,) if tier == 'quick' else (1, 2, 3)):
+            if ns >= 2 and n == 3: continue
+            obs.append(layout_ob(prop, lid, lst, nelem=n, reserved=int(reserved), maxspan=(65535 if tier == 'quick' or ns < 2 else 255)))
+    fam = family()
+    rng = random.Random(1 if tier == 'quick' else seed)    # the quick selection is fixed, the thorough one follows VERIF_SEED
+    rng.shuffle(fam)
+    want = 10 if tier == 'quick' else 160
+    for combo, cnt in fam:
+        if want == 0: break
+        ns = sym_spans(combo)
+        if ns > 2 or (tier == 'quick' and ns > 1 and any(s == 12 for _, s, _ in combo)): continue   # >= 3 symbolic spans: no verdict within budget (DESIGN 3.6)
+        if not any(k == 'V' for k, _, _ in combo) and rng.random() < 0.5: continue
+        obs.append(layout_ob(prop, family_name(combo, cnt), family_list(combo, cnt), nelem=2, reserved=int(reserved)))
+        want -= 1
+    return dedup(obs)
+
+
+# ---- per property plans ---------------------------------------------------------------------------------------------
+def c01(tier, seed): return pool_seq('C01', CORE, tier)
+
+
+def c02(tier, seed):
+    obs = pool_layout('C02', tier, seed)
+    obs += pool_seq('C02', CORE if tier == 'thorough' else ['V1', 'V2', 'M1', 'F2', 'N2'], tier, ops_filter=None if tier == 'thorough' else ['OP_ERASE', 'OP_RESERVE', 'OP_EMPLACE', 'OP_CLEAR'])
+    obs += pool_copy('C02', ['V2', 'F1'] if tier == 'quick' else TRIVIAL, tier, ops=['OP_COPY_ASSIGN', 'OP_MOVE_ASSIGN'], akinds=('st-ne',))
+    return obs
+
+
+def c03(tier, seed):
+    obs = pool_layout('C03', tier, seed)
+    al = ['P2', 'F2', 'V2', 'V3', 'M1']
+    obs += pool_seq('C03', al, tier, ops_filter=['OP_ERASE', 'OP_RESERVE', 'OP_ERASE_RANGE'] if tier == 'quick' else None)
+    obs += pool_copy('C03', al if tier == 'thorough' else ['V2', 'F2', 'M1'], tier, akinds=('st-ne',), ops=['OP_COPY_CTOR', 'OP_COPY_ASSIGN', 'OP_MOVE_ASSIGN', 'OP_SWAP'])
+    return obs
+
+
+def c04(tier, seed):
+    obs = pool_layout('C04', tier, seed)
+    obs += pool_seq('C04', ['V1', 'V3', 'M1', 'F2'] if tier == 'quick' else CORE, tier, ops_filter=['OP_ERASE', 'OP_RESERVE'] if tier == 'quick' else None)
+    return obs
+
+
+def c05(tier, seed):
+    obs = pool_layout('C05', tier, seed)
+    lists = ['F1', 'V1', 'V2', 'M1'] if tier == 'quick' else TRIVIAL + ['N1', 'N2']
+    obs += pool_copy('C05', lists, tier, akinds=('ae', 'st-ne', 'prop-ne') if tier == 'quick' else tuple(ALLOC_KINDS))
+    obs += pool_seq('C05', ['V1', 'F1'], tier, ops_filter=['OP_RESERVE'])
+    return obs
+
+
+def c06(tier, seed):
+    obs = pool_seq('C06', NONTRIVIAL, tier)
+    obs += pool_elem('C06', NONTRIVIAL, akinds=('ae', 'st-ne'))
+    obs += [ref_ob('C06', lid, part) for lid in NONTRIVIAL for part in (2, 4)]
+    obs += pool_copy('C06', NONTRIVIAL, tier, akinds=('ae', 'st-ne') if tier == 'quick' else tuple(ALLOC_KINDS))
+    return obs
+
+
+def c07(tier, seed):
+    lists = ['F1', 'V1', 'N1', 'N2'] if tier == 'quick' else CORE
+    obs = []
+    for ak in (('ae', 'st-ne', 'prop-ne') if tier == 'quick' else tuple(ALLOC_KINDS)):
+        obs += pool_copy('C07', lists, tier, akinds=(ak,))
+    obs += pool_seq('C07', lists, tier, aflags='0')
+    obs += pool_elem('C07', ['V1', 'N2'] if tier == 'quick' else ['F1', 'V1', 'M1', 'N1', 'N2'])
+    return obs
+
+
+def c08(tier, seed):
+    obs = []
+    lists = ['F1', 'V1', 'N1'] if tier == 'quick' else ['F1', 'V1', 'N1', 'N2', 'P2', 'M1']
+    combos = []
+    for pocca in (0, 1):
+        for pocma in (0, 1):
+            for pocs in (0, 1):
+                for soccc in (0, 1):
+                    fl = '|'.join([x for x, on in (('AF_POCCA', pocca), ('AF_POCMA', pocma), ('AF_POCS', pocs), ('AF_SOCCC', soccc)) if on]) or '0'
+                    combos.append((f"c{pocca}m{pocma}s{pocs}o{soccc}", fl))
+    for lid in lists:
+        for nm, fl in combos:
+            for eq in (0, 1):
+                for op in ('OP_COPY_CTOR', 'OP_COPY_ASSIGN', 'OP_MOVE_ASSIGN', 'OP_SWAP'):
+                    if op == 'OP_COPY_CTOR' and eq: continue
+                    if tier == 'quick' and lid != 'V1' and (('o1' in nm) or eq): continue
+                    obs.append(copy_ob('C08', lid, op, akind=f"{nm}{'eq' if eq else 'ne'}", aflags=fl, eq=eq, ka=(1 if tier == 'quick' else 2), kb=1))
+        obs.append(copy_ob('C08', lid, 'OP_COPY_ASSIGN', akind='ae'))
+        obs.append(copy_ob('C08', lid, 'OP_MOVE_ASSIGN', akind='ae'))
+    return dedup(obs)
+
+
+def c09(tier, seed):
+    return pool_copy('C09', CORE, tier, akinds=('ae', 'st-ne') if tier == 'quick' else tuple(ALLOC_KINDS))
+
+
+def c10(tier, seed):
+    obs = pool_seq('C10', CORE, tier, ops_filter=['OP_RESERVE'])
+    for lid in CORE:
+        obs.append(seq_ob('C10', lid, ['OP_RESERVE', 'OP_RESERVE', 'OP_PROBE'], k0=2))
+        obs.append(seq_ob('C10', lid, ['OP_RESERVE', 'OP_PROBE', 'OP_PROBE', 'OP_PROBE'], k0=1))
+    obs += [o for o in pool_layout('C10', tier, seed, reserved=True)]
+    return dedup(obs)
+
+
+def c16(tier, seed):
+    obs = pool_seq('C16', CORE if tier == 'thorough' else ['P2', 'F1', 'V1', 'V3', 'M1', 'N1', 'N2'], tier)
+    obs += pool_copy('C16', ['F1', 'V1', 'N2'] if tier == 'quick' else CORE, tier, akinds=('ae', 'prop-ne'), ops=['OP_SWAP', 'OP_MOVE_CTOR', 'OP_MOVE_ASSIGN', 'OP_SELF'])
+    return obs
+
+
+REF_LISTS = ['N3', 'P2', 'F2', 'M1', 'N1', 'N2', 'V1', 'F1']
+
+
+def ref_ob(prop, lid, part, k0=3):
+    d = [f'-DLIST={LISTS[lid]}', f'-DPART={part}', f'-DK0={k0}']
+    if lid in TWO_SPAN: d.append('-DSMAX=1')
+    return dict(prop=prop, name=f"ref/{lid}/part{part}/k{k0}", harness='h_ref.cpp', defines=d, entry='h_entry', cfg=dict(slack='min', budget_s=900), list=lid)
+
+
+def c11(tier, seed):
+    obs = []
+    for lid in (REF_LISTS if tier == 'thorough' else ['N3', 'P2', 'F2', 'M1', 'N2']):
+        for part in (1, 2, 3, 4):
+            obs.append(ref_ob('C11', lid, part, k0=(3 if tier == 'thorough' or part in (3, 4) else 2)))
+    return obs
+
+
+ELEM_OPS = ['OP_FROM_REF', 'OP_ELEM_CTOR', 'OP_ELEM_ASSIGN', 'OP_ELEM_SWAP', 'OP_TO_REF']
+
+
+def elem_ob(prop, lid, op, akind='ae', aflags=None):
+    fl = aflags if aflags is not None else ALLOC_KINDS[akind][0]
+    d = [f'-DLIST={LISTS[lid]}', f'-DOP={op}', f'-DAFLAGS=({fl})']
+    if lid in TWO_SPAN: d.append('-DSMAX=1')
+    return dict(prop=prop, name=f"elem/{lid}/{akind}/{op[3:].lower()}", harness='h_elem.cpp', defines=d, entry='h_entry', cfg=dict(slack='min', budget_s=900), list=lid)
+
+
+def pool_elem(prop, lists, akinds=('ae', 'st-ne', 'prop-ne')):
+    return [elem_ob(prop, lid, op, ak) for lid in lists for ak in akinds for op in ELEM_OPS]
+
+
+def c12(tier, seed):
+    return pool_elem('C12', ['F1', 'V1', 'M1', 'N1', 'N2'] if tier == 'quick' else CORE)
+
+
+PLANS = {'C11': c11, 'C12': c12, 'C01': c01, 'C02': c02, 'C03': c03, 'C04': c04, 'C05': c05, 'C06': c06, 'C07': c07, 'C08': c08, 'C09': c09, 'C10': c10, 'C16': c16}
 
 
 def obligations(prop, tier, seed):
-    return PLANS[prop](tier, seed)
+    obs = PLANS[prop](tier, seed)
+    for o in obs: o['prop'] = prop
+    return dedup(obs)
 
 
 def bounds(prop, tier):
